@@ -172,6 +172,30 @@ func (n *Net) CrashNode(nd *Node) {
 }
 
 // RestartNode makes the node reachable again (listeners must be re-created by its software).
+// KillNode models a killed process: the operating system closes every connection endpoint of nd, so whatever the
+// process had written is still delivered and followed by the end of the stream (CrashNode, in contrast, models a
+// machine that vanishes: resets, in-flight data lost).
+func (n *Net) KillNode(nd *Node) {
+	n.mu.Lock()
+	n.countL("fault.kill", 1)
+	n.Logf("kill %s", nd.Name)
+	var ends []*Conn
+	for _, p := range n.pairs {
+		if p.dead || p.rst {
+			continue
+		}
+		for side := 0; side < 2; side++ {
+			if p.node[side] == nd && !p.closed[side] && p.ends[side] != nil {
+				ends = append(ends, p.ends[side])
+			}
+		}
+	}
+	n.mu.Unlock()
+	for _, c := range ends {
+		c.Close()
+	}
+}
+
 func (n *Net) RestartNode(nd *Node) {
 	n.mu.Lock()
 	nd.Crashed = false
